@@ -135,12 +135,14 @@ def r5_binify_guards(ctx):
                 moved = None if any(m is None for m in ms) or len({m > 0 for m in ms} | {m < 0 for m in ms}) != 2 else ms[0]
             except Unsupported:
                 moved = None
-        if not ok or moved is None:
-            oks.append(None if ok and len(cells) == 1 and const_of(cells[0][1]) == (0 if right else -1) and moved is None else False)
+        if u is None or len(u[1]) < 3 or len(cells) != 1:
+            oks.append(None)            # edges not made by np.linspace plus one widening store: a shape this rule does not read
+        elif not ok or moved is None:
+            oks.append(None if ok and const_of(cells[0][1]) == (0 if right else -1) and moved is None else False)
         else:
             oks.append(moved < 0 if right else moved > 0)
     if None in oks and False not in oks:
-        ctx.error("getbins (scalar bins): the widening of the open edge could not be read as a multiple of (mx - mn)", fn)
+        ctx.error("getbins (scalar bins): edges are not np.linspace(mn, mx, ...) with the open edge moved by a multiple of (mx - mn)", fn)
     else:
         ctx.check(all(oks), "getbins (scalar bins): edges span [mn, mx], the open edge (first for right=True, last otherwise) is moved outward, and nothing is out of bounds", fn)
     # (mx, mn) given in the wrong order are swapped before use
@@ -174,6 +176,7 @@ def r5_binify_guards(ctx):
     roles = {}
     if True in acc and False in acc:
         bad = None
+        shape = True
         for ens, (S, mat, cell) in acc.items():
             _, ix = peel(F.fn("idx", F.sym(mat), cell[1]))
             got = []
@@ -186,6 +189,7 @@ def r5_binify_guards(ctx):
                     dg = None
                 if dg is None or len(k) != 1:
                     bad = f"index {pos} of the accumulation is not digitize(...)[k] - 1: {short(x)}"
+                    shape = False
                     break
                 pos_a, kw_a = call_args(dg)
                 a = place(pos_a, kw_a, ["x", "bins", "right"])
@@ -210,7 +214,10 @@ def r5_binify_guards(ctx):
                 bad = f"value added: {short(added)}"
                 break
         ok = bad is None and roles.get(True) == roles.get(False)
-        ctx.check(ok, "_binify: amplitude (column 0) and mean (column 1) are binned with digitize(..., right=right) - 1", fb, bad)
+        if not shape:
+            ctx.error("_binify: amplitude (column 0) and mean (column 1) are binned with digitize(..., right=right) - 1", fb, bad)
+        else:
+            ctx.check(ok, "_binify: amplitude (column 0) and mean (column 1) are binned with digitize(..., right=right) - 1", fb, bad)
         # guard truth tables: row r against [0, n_mean), column c against [0, n_range)
         if ok:
             for ens, (S, mat, cell) in acc.items():
@@ -282,6 +289,7 @@ def r5_binify_guards(ctx):
     S, gb, bn = res[True]
     G = {}
     bad = None
+    undecided = False
     if len(gb) != 2 or len(bn) != 1:
         bad = f"{len(gb)} getbins calls, {len(bn)} _binify calls"
     else:
@@ -308,12 +316,18 @@ def r5_binify_guards(ctx):
             for oa in (True, False):
                 for om in (True, False):
                     f = Facts(truths=[(F.fn("idx", G["amp"], F.const(1)), oa), (F.fn("idx", G["mean"], F.const(1)), om)])
-                    if truth(ens, f) is not (oa or om):
+                    t = truth(ens, f)
+                    if t is None:
+                        undecided = True
+                    if t is not (oa or om):
                         ok = False
-                        bad = {"guard argument": short(ens), "amplitude out": oa, "mean out": om, "guard": truth(ens, f)}
+                        bad = {"guard argument": short(ens), "amplitude out": oa, "mean out": om, "guard": t}
         else:
             bad = {k: short(v, 100) for k, v in a.items()}
-    ctx.check(bad is None, "binify: the index guard is switched on exactly when getbins reports a value out of bounds (amplitude or mean)", bf, bad)
+    if len(gb) != 2 or len(bn) != 1 or undecided:
+        ctx.error("binify: the index guard is switched on exactly when getbins reports a value out of bounds (amplitude or mean)", bf, bad)
+    else:
+        ctx.check(bad is None, "binify: the index guard is switched on exactly when getbins reports a value out of bounds (amplitude or mean)", bf, bad)
     S2, gb2, bn2 = res[False]
     ok = len(bn2) == 1 and len(gb2) == 2
     if ok:
@@ -327,22 +341,28 @@ def r5_binify_guards(ctx):
     Ss = XSem(ctx, sc, consts=consts, inline={k: v for k, v in table.items() if k not in ("sigcount", "binify", "rainflow", "findap", "getbins", "_binify")})
     cb = Ss.calls("binify")
     ok = len(cb) == 1
+    if not cb:
+        ctx.error("sigcount never overrides check_bounds", sc, "no call of binify")
     if ok:
         a = placed(cb[0], pf)
         ok = all(same(a.get(n), Ss.E(n)) for n in ("ampbins", "meanbins", "right")) and ("check_bounds" not in a or truth(a["check_bounds"], None) is True)
         u = app(a.get("rf"), "call:rainflow")
         ok = ok and u is not None and same(call_args(u)[0][0], Ss.E("sig[findap(sig)]"))
-    ctx.check(ok, "sigcount never overrides check_bounds", sc, None if ok or not cb else {k: short(v, 80) for k, v in placed(cb[0], pf).items()})
+    if cb:
+        ctx.check(ok, "sigcount never overrides check_bounds", sc, None if ok else {k: short(v, 80) for k, v in placed(cb[0], pf).items()})
     # labels
     if bad is None:
         df = [c for c in S.calls("pd.DataFrame") if "index" in c[2] and "columns" in c[2]]
         ok = len(df) == 1
         det = None
+        shape = ok
         if ok:
             for kw, which in (("index", "mean"), ("columns", "amp")):
                 u = app(df[0][2][kw], "comp")
                 e = app(u[1][0], "call:.format") if u is not None else None
                 edges = F.fn("idx", G[which], F.const(0))
+                if e is None or len(e[1]) != 3:
+                    shape = False
                 if e is None or len(e[1]) != 3 or not same(e[1][1], S.ev.mk_idx(edges, F.sym("_i0"))) or not same(e[1][2], S.ev.mk_idx(edges, F.sym("_i0") + 1)) \
                         or not same(u[1][1], F.fn("len", edges) - 1):
                     ok = False
@@ -354,7 +374,11 @@ def r5_binify_guards(ctx):
                     if sp is None or not isinstance(sp[0], str) or not isinstance(sp[-1], str) or sp[0][:1] != first or sp[-1][-1:] != last:
                         ok = False
                         det = {"label form": short(fv), "right": rt}
-        ctx.check(ok, "binify: row labels come from the mean bins, column labels from the amplitude bins, with the bracket style of `right`", bf, det)
+        if not shape:
+            ctx.error("binify: row labels come from the mean bins, column labels from the amplitude bins, with the bracket style of `right`", bf,
+                      det or "labels are not [form.format(lo, hi) for each bin] handed to one pd.DataFrame(..., index=, columns=)")
+        else:
+            ctx.check(ok, "binify: row labels come from the mean bins, column labels from the amplitude bins, with the bracket style of `right`", bf, det)
 
 
 # ======================================================================================================================= R6
@@ -452,15 +476,19 @@ def r6_tolerance_strictness(ctx):
             ctx.check(ok, f"{name}: the tolerance is relative to the largest sample-to-sample difference", fn, None if ok else [short(t) for _, _, t in cm])
     ctx.check(n >= 4, f"tolerance rule bound to {n} comparisons in find_unique and findap", LOC + ":1", nontrivial=False)
     # find_unique itself: the mask is (True, |diff| > tolerance)
-    u = app(fu, "hcat")
+    u = app(fu, "hcat") if fu is not None and not is_unknown(fu) and not isinstance(fu, tuple) else None
     ok = u is not None and len(u[1]) == 2 and truth(u[1][0], None) is True
-    if ok:
+    if u is None or len(u[1]) != 2:
+        ctx.error("find_unique: the first sample is unique; a later sample is unique exactly when it differs from its predecessor by more than the tolerance", lf,
+                  "the mask is not a concatenation (True, <comparison>): " + short(fu))
+    elif ok:
         cm = _tol_cmps([u[1][1]], pl[1])
         ok = len(cm) == 1 and same(cm[0][1], Sfu.E(f"abs(np.diff({pl[0]}))"))
         r = _strict(u[1][1], cm[0][1], cm[0][2]) if ok else None
         ok = ok and r is not None and r["above"] is True and r["on"] is False and r["below"] is False
-    ctx.check(ok, "find_unique: the first sample is unique; a later sample is unique exactly when it differs from its predecessor by more than the tolerance", lf,
-              None if ok else short(fu))
+    if u is not None and len(u[1]) == 2:
+        ctx.check(ok, "find_unique: the first sample is unique; a later sample is unique exactly when it differs from its predecessor by more than the tolerance", lf,
+                  None if ok else short(fu))
     # ---- the vectorised (numpy) variant of findap
     vec = [v for v in variants if not v[4]]
     if len(vec) != 1:
@@ -498,9 +526,11 @@ def _findap_numpy(ctx, variant, fu, pl, consts, table, lf):
             shape_ok = False
             continue
         mask = arr
-        if not allu:
-            cells = S.cells(arr)
-            ok = const_of(S.init(arr)) == 0 and len(cells) == 1 and not cells[0][4]["guard"] and U is not None and same(cells[0][1], U) and sym_of(cells[0][2]) is not None
+        cells = S.cells(arr)
+        scattered = len(cells) == 1 and sym_of(cells[0][2]) is not None and bool(S.cells(sym_of(cells[0][2])))
+        if scattered or not allu:
+            # the mask of the retained samples is expanded to full size: zeros, then the mask stored at the retained positions
+            ok = scattered and const_of(S.init(arr)) == 0 and not cells[0][4]["guard"] and U is not None and same(cells[0][1], U)
             if not ok:
                 scatter_ok = False
                 probs.append(f"expansion to full size: {[(short(c[1], 80), short(c[2], 80)) for c in cells]}")
@@ -874,6 +904,9 @@ def r1_exponents(ctx):
                     want = E(f"(A[_i0] ** {b}) * Z[_i0]", A=BA, Z=Z)
                 ok = el is not None and same(el, want)
                 exps.append(ok)
+                if el is None or want is None:
+                    ctx.error(f"fdepsd: damage indicator Df{b} = sum(amplitude^{b} * non-cumulative count)", fn, "the column is not filled element by element from binamps / bincount")
+                    continue
                 ctx.check(ok, f"fdepsd: damage indicator Df{b} = sum(amplitude^{b} * non-cumulative count)", cell[3] if cell else fn,
                           None if ok else {"element": short(el), "expected": f"binamps[j]**{b} . bincount[j]"})
             ctx.check(all(exps), "fdepsd: fatigue exponents b4, b8, b12 are 4, 8, 12", fn)
